@@ -339,7 +339,7 @@ func TestC12(t *testing.T) {
 	if s.replay(t) {
 		return
 	}
-	rapidCheck(t, "synthetic", tierN(8000, 120000), func(rt *rapid.T) {
+	rapidCheck(t, "synthetic", tierN(24000, 120000), func(rt *rapid.T) {
 		c := genMerkleCase().Draw(rt, "case")
 		c.Mode = int(genMode().Draw(rt, "mode"))
 		class := "synthetic/" + c.What
